@@ -61,6 +61,7 @@ def worker_body(factory, name, group, spec, algo, n, actions, rewards, log):
         fb.done()
         if act == 'end_loop':
           fb.end_loop()
+      log.append(('reported', group, fb.id))       # done()/skip() returned normally: the outcome must not be lost
     except lb.RaceConditionError:
       pass          # documented signal: a co-worker of the same group has already finished this trial
 
@@ -189,6 +190,11 @@ def oracle(log, studies, algo, n, nworkers, configs):
       open_by_group[group] = tid
     elif cur == tid:
       open_by_group[group] = None
+  # no outcome is lost: a trial whose worker reported (done / skip returned normally) is completed at quiescence
+  by_id = {t.id: t for t in trials}
+  for kind, group, tid in [e for e in log if e[0] == 'reported']:
+    if tid in by_id and by_id[tid].status != 'COMPLETED':
+      return ('reported_trial_not_completed', f'trial {tid} (group {group}) was reported by its worker but is {by_id[tid].status}')
   pending = sum(1 for t in trials if t.status == 'PENDING')
   completed = sum(1 for t in trials if t.status == 'COMPLETED')
   c = study._num_trials_by_status        # pylint: disable=protected-access
